@@ -689,7 +689,13 @@ def r7_selection(ctx):
     fn = ctx.src.func(PYFILE, "rainflow")
     args = [a.arg for a in fn.args.args]
     ctx.check(args[:1] == ["peaks"] and args[1:2] == ["getoffsets"] and len(args) == 2, "py_rain.rainflow(peaks, getoffsets)", fn, nontrivial=False)
-    pu, ex = _entry_exec(ctx, "py")
+    try:
+        pu, ex = _entry_exec(ctx, "py")
+    except Y.Uninitialised as e:
+        # a name bound nowhere (not a parameter, a local, a module-level name or a builtin): NameError for every call that reads it
+        ctx.fail("py_rain.rainflow: every name the entry point reads is bound", fn, {"name": e.name, "consequence": "NameError instead of a cycle table"},
+                 key="C05-R7|py_rain.rainflow|unbound name")
+        raise
     p0 = ("opq", "param", (("str", args[0]),), "any") if args else None
     p1 = ("opq", "param", (("str", args[1]),), "any") if len(args) > 1 else None
     _entry_rule(ctx, "py_rain.rainflow", ex, fn, lambda v: Y.arr_id(v) == ("obj", "asarray", p0), lambda v: v == p1 or v == Y.opq_name(p1) if p1 else False,
